@@ -88,7 +88,7 @@ def lua_val(v):
 
 def key_of(k):
     k = k.strip()
-    return int(k) if k.isdigit() and int(k) > 0 else k
+    return int(k) if k.isascii() and k.isdigit() and int(k) > 0 else k
 
 
 def expand_ref(s):
